@@ -1,10 +1,12 @@
 #!/bin/sh
 # tools/seedsnap.sh [ids...] : run the seeded changes against a snapshot of the committed /verif (so that
-# /verif can be edited meanwhile); outcomes are copied back into /verif/seeded/*/meta.json at the end.
-S=/tmp/vsnap
+# /verif can be edited meanwhile); the outcomes of the seeds that were run are copied back into
+# /verif/seeded/*/meta.json at the end.  SNAP / GW name the snapshot and the scratch worktree (two lanes can run side by side).
+S=${SNAP:-/tmp/vsnap}; G=${GW:-/tmp/gw3}
 git -C /verif worktree remove --force $S 2>/dev/null; rm -rf $S
 git -C /verif worktree add -f --detach $S HEAD >/dev/null 2>&1 || exit 3
-cd $S && GW=/tmp/gw3 python3 tools/allseeds.py "$@"
-for d in $S/seeded/*/; do id=$(basename $d); cp $d/meta.json /verif/seeded/$id/meta.json; done
-git -C /repo worktree remove --force /tmp/gw3 2>/dev/null
+cd $S && GW=$G python3 tools/allseeds.py "$@"
+if [ $# -gt 0 ]; then for id in "$@"; do [ -f $S/seeded/$id/meta.json ] && cp $S/seeded/$id/meta.json /verif/seeded/$id/meta.json; done
+else for d in $S/seeded/*/; do id=$(basename $d); cp $d/meta.json /verif/seeded/$id/meta.json; done; fi
+git -C /repo worktree remove --force $G 2>/dev/null
 git -C /verif worktree remove --force $S; rm -rf $S
